@@ -278,6 +278,15 @@ class Recorder:
             {"e": "nret", "i": self.cur_slot if slot is None else slot, "c": c, "cmp": cmp, "res": self.classify(value)}
         )
 
+    # -- a callback writes the model field itself ------------------------------------------------
+    def cbwrite(self, slot, c, machine, token):
+        r = self.runner
+        if r is None:
+            return
+        k = r.cls_of.get(slot, 1)
+        setattr(machine.model, machine.state_field, r.value_of(k, token))
+        self.emit({"e": "cbw", "i": slot, "c": c, "v": token})
+
     # -- a callback of one machine sends an event to another machine -------------------------
     def xtarget(self, slot, snd, coro_caller):
         """The machine a cross-instance send goes to, or None when the send is skipped: unknown / own slot, a busy
@@ -366,6 +375,9 @@ def make_callback(rt, c, cb, slot_getter=None):
                 for ev in sends:
                     if rt.budget <= 0 and not planned:
                         break
+                    if isinstance(ev, dict) and "write" in ev:
+                        rt.cbwrite(slot, c, machine, ev["write"])
+                        continue
                     if isinstance(ev, dict):          # to another machine
                         tgt = rt.xtarget(slot, ev, False)
                         if tgt is None:
@@ -422,6 +434,9 @@ def make_callback(rt, c, cb, slot_getter=None):
                 for ev in sends:
                     if rt.budget <= 0 and not planned:
                         break
+                    if isinstance(ev, dict) and "write" in ev:
+                        rt.cbwrite(slot, c, machine, ev["write"])
+                        continue
                     if isinstance(ev, dict):          # to another machine
                         tgt = rt.xtarget(slot, ev, True)
                         if tgt is None:
@@ -976,6 +991,11 @@ class Runner:
         api, ev = step["api"], step.get("ev", "")
         if api == "send":
             return sm.send(ev)
+        if api == "send_from":
+            # the event OBJECT of another machine of the same class (Event is a str): still a send to THIS machine
+            other = self.sm.get(step.get("j", 0))
+            objs = [e for e in (other.events if other is not None else []) if e == ev]
+            return sm.send(objs[0] if objs else ev)
         if api == "event":
             return getattr(sm, ev)()
         if api == "events_item":
@@ -1039,12 +1059,12 @@ class Runner:
         line = {"e": "call", "i": i, "api": api, "ev": step.get("ev", ""),
                 "v": step.get("v", "") if not isinstance(step.get("v"), list) else "",
                 "vs": step["v"] if isinstance(step.get("v"), list) else [step.get("v", "")], "j": step.get("j", 0)}
-        if api in ("send", "event", "events_item", "allowed_item", "bound", "activate", "mixin_bound"):
+        if api in ("send", "send_from", "event", "events_item", "allowed_item", "bound", "activate", "mixin_bound"):
             line["gv"] = self.set_gv(step)
             self.rt.budget = step.get("budget", self.scn.get("budget", 0))
         self.rt.emit(line)
         try:
-            if api in ("send", "event", "events_item", "allowed_item", "bound", "activate", "mixin_bound"):
+            if api in ("send", "send_from", "event", "events_item", "allowed_item", "bound", "activate", "mixin_bound"):
                 spied = None
                 if api == "send" and step.get("spy"):
                     spied = self.install_spy(sm, step["ev"])
@@ -1122,7 +1142,7 @@ class Runner:
         i = step["i"]
         sm = self.sm[i]
         api = step["api"]
-        if api not in ("send", "event", "events_item", "allowed_item", "bound", "activate"):
+        if api not in ("send", "send_from", "event", "events_item", "allowed_item", "bound", "activate"):
             return self.do_call(step)
         self.rt.cur_slot = i
         self.rt.chain = [i]
